@@ -184,6 +184,13 @@ def decode_serve_cfg(cfg, vals):
     d = read_ent(r)
     d["etag"] = {"none": 0, "strong": 1, "weak": 2, "comma": 3}[cfg["etag"]]
     d["has_mtime"] = cfg["has_mtime"]
+    # serve() only compares the modification time with the clock (in the future or not); the
+    # solver's values are arbitrary and mostly too far apart to be shifted onto the real clock:
+    # keep the order (and equality of the seconds), clamp the distance to ~11 days
+    gap = d["m_secs"] - d["now_secs"]
+    d["m_secs"] = d["now_secs"] + max(-1000000, min(1000000, gap))
+    if d["m_secs"] < 0:
+        d["m_secs"] = 0
     d["nhdr"] = cfg["nhdr"]
     rs = [(r.u64(), r.u64()) for _ in range(3)]
     scripts = read_script(r, False)
